@@ -77,6 +77,7 @@ theorem inv_work_urd (c : Cfg) (ar aq : Nat) (s : S) (h : Inv c ar aq s) (hrun :
         · simp [sndStep, hs, ho1, ho2, ho3, ho4]
         · simp [sndStep, hs, ho4, hrst]
         · rfl
+        · simp [sndStep]
       | true =>
         have e2 : onUpstreamData c s (!true) = { s with procDone := false, trace := s.trace ++ [Ev.dd false] } := by
           unfold onUpstreamData dsAppendData emit
@@ -147,6 +148,7 @@ theorem inv_work_urt (c : Cfg) (ar aq : Nat) (s : S) (h : Inv c ar aq s) (hrun :
     · simp [sndStep, hs, ho1, ho2, ho3, ho4]
     · simp [sndStep, hs, ho4, hrst]
     · rfl
+    · simp [sndStep]
 
 /-- phase `End`: unreachable for a running worker -/
 theorem inv_work_end (c : Cfg) (ar aq : Nat) (s : S) (h : Inv c ar aq s) (hrun : s.running = true)
